@@ -14,6 +14,15 @@
     sides (an SO(2d) action keeps it real antisymmetric with spectrum in [-i, i] only in that form).
 (d) *exclusion at preparation*: every path of both `state_vector` steps that stores occupation numbers passes
     the `all_zero_or_one` test (under `config.validate`).
+(e) *occupation-independent coefficients*: in a guarded (adjacent-mode) gate step of the Fock simulator the numbers
+    that multiply the amplitudes read from the state vector depend on the gate parameters only - on adjacent modes
+    the Jordan-Wigner strings of the two operators cancel, so a coefficient that varies with the basis state the loop
+    is visiting (a sign from the occupation of other modes, say) is a different operator from the one the Gaussian
+    simulator applies.  Decided by loop-invariance of the coefficient operands (fixpoint over the assignments).
+(f) *exterior powers*: every implementation of `calculate_interferometer_on_fermionic_fock_space` returns, for
+    particle number 0 the constant [[1]], for 1 the matrix, and for each n >= 2 an array whose value depends on the
+    matrix and on the previous representation (Laplace recurrence); exactly one constant is appended and it is the
+    first.  A constant for any n >= 1 drops the determinant phase the Gaussian simulator keeps.
 Numerical agreement of the two representations is not decided.
 """
 
@@ -296,6 +305,232 @@ def clause_d(ctx: Context) -> None:
     ctx.require_floor("C17d stores of occupation numbers", n, 3)
 
 
+def _loop_variant(fn_node: ast.AST) -> set:
+    """names whose value may differ between iterations of a loop of the function (fixpoint)"""
+    loops = [n for n in walk_no_nested(fn_node) if isinstance(n, (ast.For, ast.While))]
+    variant: set = set()
+    in_loop_assigns: List[Tuple[List[str], ast.AST]] = []
+    for lp in loops:
+        if isinstance(lp, ast.For):
+            variant |= {n.id for n in ast.walk(lp.target) if isinstance(n, ast.Name)}
+        for st in lp.body + lp.orelse:
+            for n in ast.walk(st):
+                if isinstance(n, ast.AugAssign):
+                    variant |= {x.id for x in ast.walk(n.target) if isinstance(x, ast.Name) and isinstance(x.ctx, ast.Store)}
+                    if isinstance(n.target, (ast.Subscript, ast.Attribute)):
+                        b = n.target
+                        while isinstance(b, (ast.Subscript, ast.Attribute)):
+                            b = b.value
+                        if isinstance(b, ast.Name):
+                            variant.add(b.id)
+                elif isinstance(n, ast.Assign):
+                    for t in n.targets:
+                        if isinstance(t, (ast.Subscript, ast.Attribute)):
+                            b = t
+                            while isinstance(b, (ast.Subscript, ast.Attribute)):
+                                b = b.value
+                            if isinstance(b, ast.Name):
+                                variant.add(b.id)   # stored into inside the loop
+                        else:
+                            names = [x.id for x in ast.walk(t) if isinstance(x, ast.Name)]
+                            in_loop_assigns.append((names, n.value))
+                elif isinstance(n, (ast.For, ast.comprehension)) and n is not lp:
+                    variant |= {x.id for x in ast.walk(n.target) if isinstance(x, ast.Name)}
+    changed = True
+    while changed:
+        changed = False
+        for names, val in in_loop_assigns:
+            used = {x.id for x in ast.walk(val) if isinstance(x, ast.Name)}
+            if (used & variant or used & set(names)) and not set(names) <= variant:
+                variant |= set(names)
+                changed = True
+    return variant
+
+
+def clause_e(ctx: Context) -> None:
+    ctx.rule("C17e", "in a guarded (adjacent-mode) gate step of the fermionic Fock simulator, the coefficients multiplying the "
+                     "amplitudes read from the state vector are loop-invariant: they do not depend on the basis state visited")
+    idx = get_index(ctx.repo)
+    reg = get_registry(idx)
+    sims = [s for s in reg.simulators if s.name == FOCK_SIM]
+    if not sims:
+        raise AnalysisError(f"anchor vanished: {FOCK_SIM}")
+    gate_base = idx.find_class("piquasso.api.instruction", "Gate")
+    steps: Dict[str, FuncInfo] = {}
+    for e in sims[0].entries:
+        if e.instr is not None and e.step is not None and e.instr.is_subclass_of(gate_base):
+            steps[e.step.qualname] = e.step
+    n_ob = 0
+    for q, fn in sorted(steps.items()):
+        writes = [w for w in _sv_writes(fn) if isinstance(w.value, ast.Call) and (dotted(w.value.func) or "").split(".")[-1] == "assign"
+                  and len(w.value.args) == 3]
+        if not writes:
+            continue
+        variant = _loop_variant(fn.node)
+        # locals holding amplitudes
+        amp: set = set()
+        assigns = [n for n in walk_no_nested(fn.node) if isinstance(n, ast.Assign) and len(n.targets) == 1 and isinstance(n.targets[0], ast.Name)]
+
+        def is_amp(e: ast.AST) -> bool:
+            if isinstance(e, ast.Subscript):
+                return is_amp(e.value)
+            if isinstance(e, ast.Attribute):
+                return e.attr in (SV, "state_vector")
+            if isinstance(e, ast.Name):
+                return e.id in amp
+            if isinstance(e, ast.Call):
+                return any(is_amp(a) for a in e.args)
+            if isinstance(e, ast.BinOp):
+                return is_amp(e.left) or is_amp(e.right)
+            if isinstance(e, ast.UnaryOp):
+                return is_amp(e.operand)
+            return False
+
+        ch = True
+        while ch:
+            ch = False
+            for a in assigns:
+                if a.targets[0].id not in amp and is_amp(a.value):
+                    amp.add(a.targets[0].id)
+                    ch = True
+
+        def coefficients(e: ast.AST) -> List[ast.AST]:
+            if isinstance(e, ast.BinOp):
+                la, ra = is_amp(e.left), is_amp(e.right)
+                if la and ra:
+                    return coefficients(e.left) + coefficients(e.right)
+                if la:
+                    return coefficients(e.left) + [e.right]
+                if ra:
+                    return [e.left] + coefficients(e.right)
+                return [e]
+            if isinstance(e, ast.UnaryOp):
+                return coefficients(e.operand)
+            if isinstance(e, ast.Call) and is_amp(e):
+                out: List[ast.AST] = []
+                for a in e.args:
+                    out += coefficients(a) if is_amp(a) else []
+                return out
+            if isinstance(e, ast.Name) and e.id in amp:
+                out = []
+                for a in assigns:
+                    if a.targets[0].id == e.id:
+                        out += coefficients(a.value)
+                return out
+            if is_amp(e):
+                return []
+            return [e]
+
+        for w in writes:
+            val = w.value.args[2]
+            for c in coefficients(val):
+                used = {x.id for x in ast.walk(c) if isinstance(x, ast.Name)}
+                bad = sorted(used & variant)
+                key = f"{q}|{norm(c)[:60]}"
+                n_ob += 1
+                ctx.obligation("C17e", key, not bad, where=f"{ctx.relpath(fn.file)}:{w.lineno}")
+                if bad:
+                    ctx.violation("C17e", key, fn.file, w.lineno,
+                                  f"the coefficient `{norm(c)[:80]}` applied to the amplitudes varies with the basis state visited "
+                                  f"(through {', '.join(bad)}): on adjacent modes the gate acts with the same numbers on every "
+                                  "basis state, so this is not the operator the Gaussian fermionic simulator applies",
+                                  construct=norm(w)[:160])
+    ctx.require_floor("C17e coefficients of amplitude updates", n_ob, 5)
+
+
+def _value_deps(fn_node: ast.AST) -> Dict[str, set]:
+    """flow-insensitive value dependencies name -> names, ignoring .dtype/.shape/len() uses"""
+    deps: Dict[str, set] = {}
+
+    def names(e: ast.AST) -> set:
+        out: set = set()
+
+        def rec(x: ast.AST) -> None:
+            if isinstance(x, ast.Attribute) and x.attr in ("dtype", "shape", "ndim", "size"):
+                return
+            if isinstance(x, ast.Call) and (dotted(x.func) or "") == "len":
+                return
+            if isinstance(x, ast.Name):
+                out.add(x.id)
+            for c in ast.iter_child_nodes(x):
+                if isinstance(x, ast.Call) and c is x.func and not isinstance(c, ast.Attribute):
+                    continue
+                if isinstance(x, ast.keyword) and x.arg in ("dtype", "shape"):
+                    continue
+                rec(c)
+        rec(e)
+        return out
+
+    for n in walk_no_nested(fn_node):
+        if isinstance(n, (ast.Assign, ast.AugAssign)):
+            tgts = n.targets if isinstance(n, ast.Assign) else [n.target]
+            for t in tgts:
+                b = t
+                while isinstance(b, (ast.Subscript, ast.Attribute)):
+                    b = b.value
+                tn = [b.id] if isinstance(b, ast.Name) else [x.id for x in ast.walk(t) if isinstance(x, ast.Name)]
+                for name in tn:
+                    deps.setdefault(name, set()).update(names(n.value))
+    return deps
+
+
+def clause_f(ctx: Context) -> None:
+    ctx.rule("C17f", "every implementation of calculate_interferometer_on_fermionic_fock_space appends one constant (first, for "
+                     "zero particles), and every later representation depends on the matrix (and, inside the loop, on a previous "
+                     "representation)")
+    idx = get_index(ctx.repo)
+    fns = [f for f in idx.all_functions() if f.name == "calculate_interferometer_on_fermionic_fock_space"]
+    impls = []
+    for fn in fns:
+        apps = [n for n in walk_no_nested(fn.node) if isinstance(n, ast.Call) and isinstance(n.func, ast.Attribute) and n.func.attr == "append"
+                and len(n.args) == 1]
+        if apps:
+            impls.append((fn, sorted(apps, key=lambda c: c.lineno)))
+    ctx.require_floor("C17f implementations that build the representations", len(impls), 3)
+    for fn, apps in impls:
+        params = [a.arg for a in fn.node.args.args]
+        mat = "matrix" if "matrix" in params else None
+        if mat is None:
+            raise AnalysisError(f"C17f: {fn.qualname} has no `matrix` parameter")
+        deps = _value_deps(fn.node)
+        lst = norm(apps[0].func.value)
+
+        def closure(e: ast.AST) -> set:
+            seen: set = set()
+            todo = [x.id for x in ast.walk(e) if isinstance(x, ast.Name)]
+            # strip dtype-only uses
+            d0 = _value_deps(ast.Module(body=[ast.Assign(targets=[ast.Name(id="__x", ctx=ast.Store())], value=e)], type_ignores=[]))
+            todo = list(d0.get("__x", set()))
+            while todo:
+                x = todo.pop()
+                if x in seen:
+                    continue
+                seen.add(x)
+                todo += list(deps.get(x, ()))
+            return seen
+
+        loops = [n for n in walk_no_nested(fn.node) if isinstance(n, (ast.For, ast.While))]
+        for i, ap in enumerate(apps):
+            if norm(ap.func.value) != lst:
+                continue
+            cl = closure(ap.args[0])
+            in_loop = any(ap in list(ast.walk(lp)) for lp in loops)
+            key = f"{fn.qualname}|append#{i}"
+            if i == 0:
+                ok = mat not in cl
+                what = "the zero-particle representation is the constant"
+            else:
+                ok = mat in cl and (not in_loop or lst in cl)
+                what = "depends on the matrix" + (" and on a previous representation" if in_loop else "")
+            ctx.obligation("C17f", key, ok, where=f"{ctx.relpath(fn.file)}:{ap.lineno}", expect=what)
+            if not ok:
+                ctx.violation("C17f", key, fn.file, ap.lineno,
+                              f"representation appended as element {i} of `{lst}`: expected that it {what}; a constant for a "
+                              "subspace with particles drops the determinant of the corresponding submatrix (for n = d: the phase "
+                              "det U) that the Gaussian fermionic simulator keeps",
+                              construct=norm(ap)[:160])
+
+
 def run(ctx: Context) -> None:
     ctx.explanation = (
         "static analysis of the fermionic simulators: sibling agreement of the Fock gate steps on the adjacency test (dominance on "
@@ -306,3 +541,5 @@ def run(ctx: Context) -> None:
     clause_b(ctx)
     clause_c(ctx)
     clause_d(ctx)
+    clause_e(ctx)
+    clause_f(ctx)
